@@ -140,6 +140,7 @@ func (c *ctx) line(sc scenario, res result) string {
 func (c *ctx) check(sc scenario, tees []int, class string) (base result) {
 	r := c.r
 	sc.tee = 0
+	sc = sc.normal()
 	base = c.exec(sc, nil)
 	baseLine := c.line(sc, base)
 	compliant := secureCompliant(sc)
@@ -153,6 +154,33 @@ func (c *ctx) check(sc scenario, tees []int, class string) (base result) {
 	lines := emit(sc, base)
 	oracle(sc, base, lines)
 	return c.checkTees(sc, base, lines, tees, key)
+}
+
+// normal: with the WebSocket framing no header element declares the stream prefix, so the only
+// stream error a peer can send is the one that declares the namespace itself (unit D)
+func (sc scenario) normal() scenario {
+	if !sc.ws() {
+		return sc
+	}
+	var clear [][]unit
+	for _, seg := range sc.clear {
+		ns := append([]unit(nil), seg...)
+		for i := range ns {
+			if ns[i].kind == 'E' {
+				ns[i].kind = 'D'
+			}
+		}
+		clear = append(clear, ns)
+	}
+	sc.clear = clear
+	prot := append([]pu(nil), sc.prot...)
+	for i := range prot {
+		if !prot[i].junk && prot[i].u.kind == 'E' {
+			prot[i].u.kind = 'D'
+		}
+	}
+	sc.prot = prot
+	return sc
 }
 
 // scriptKey: coarse, stable normal form of the script: shape of the first features list and
@@ -814,12 +842,55 @@ func (c *ctx) corpus(tees []int) {
 			c.check(sc, tees, "corpus-conn-kinds")
 		}
 	}
+	// 10. the WebSocket framing (websocket.Negotiator, websocket.NewSession): the same negotiator
+	// with <open/> headers, on raw carriers and on real client *websocket.Conn values whose origin
+	// is an http:, https: or wss: URL while the location is ws: (clear text).  Lists without
+	// STARTTLS (empty, unknown feature, SASL only), with it, next to the real SASL/bind features
+	// and an instrumented one; proceed / refused; the tee.
+	for _, ck := range wsKinds {
+		for mech := 0; mech < 2; mech++ {
+			bim := builtinOthers(mech)
+			for _, l := range []unit{list(), list(item{id: 9, req: true, ok: true}), list(sa), list(sa, bd), list(it(0, true), sa, bd), list(it(0, false), sa), list(it(0, true))} {
+				for _, a := range []byte{'P', 'F'} {
+					sc := scenario{ck: ck, mech: mech, others: bim, clear: [][]unit{{hdr(true), l}, {u(a)}}, prot: []pu{{u: hdr(true)}, {u: list()}}, domain: 1 + mech, remote: 1 + mech}
+					c.check(sc, []int{1 + (ck+mech)%3}, "corpus-websocket")
+				}
+			}
+			for k := 0; k < 6; k++ {
+				c.check(scenario{ck: ck, mech: mech, others: bim, clear: [][]unit{{hdr(true), list(it(0, true), sa)}, {u('P')}}, prot: []pu{{u: hdr(true)}, {u: list()}}}, nil, "corpus-websocket")
+			}
+		}
+		for _, l := range []unit{list(), list(it(0, true), it(1, true)), list(it(1, true)), list(it(0, false), it(1, false))} {
+			for _, st0 := range []uint8{0, uint8(xmpp.S2S)} {
+				sc := scenario{ck: ck, state0: st0, others: []other{{id: 1, nec: 1, negotiable: true}}, clear: [][]unit{{hdr(true), l}, {u('P')}},
+					prot: []pu{{u: hdr(true)}, {u: list(it(1, true))}, {u: list()}}, results: []negRes{{mask: 2}, {mask: 0}}, domain: 1, remote: 3}
+				c.check(sc, tees, "corpus-websocket")
+			}
+		}
+		// the header of the other framing, a stream error in place of the header, a header with
+		// another 'to'
+		for _, h := range []unit{{kind: 'H', variant: 3}, u('D'), u('E'), hdrA(1, &addr{1, 2, 0}), hdrA(0, nil)} {
+			c.check(scenario{ck: ck, clear: [][]unit{{h, list(it(0, true))}, {u('P')}}, prot: []pu{{u: hdr(true)}, {u: list()}}, domain: 1, remote: 1}, []int{3}, "corpus-websocket")
+		}
+		c.pipelined(scenario{ck: ck, clear: [][]unit{{hdr(true), list(it(0, true))}, {u('P')}}, prot: []pu{{u: hdr(true)}, {u: list()}}},
+			[]unit{hdr(true), list()}, []int{2}, "corpus-websocket")
+	}
+	// a stream error that declares its namespace itself, in every position (TCP framing)
+	for _, cl := range [][][]unit{{{u('D')}}, {{hdr(true), u('D')}}, {{hdr(true), list(it(0, true))}, {u('D')}}} {
+		c.check(scenario{clear: cl}, []int{3}, "corpus")
+	}
+	c.check(scenario{clear: [][]unit{{hdr(true), list(it(0, true))}, {u('P')}}, prot: []pu{{u: u('D')}}}, []int{3}, "corpus")
+	c.check(scenario{clear: [][]unit{{hdr(true), list(it(0, true))}, {u('P')}}, prot: []pu{{u: hdr(true)}, {u: u('D')}}}, []int{3}, "corpus")
 	// 5. clear text pipelined behind <proceed/>
 	c.pipelined(scenario{clear: [][]unit{{hdr(true), list(it(0, true))}, {u('P')}}, prot: []pu{{u: hdr(true)}, {u: list()}}},
 		[]unit{hdr(true), list()}, tees, "corpus")
 }
 
 // headerTos: every 'to' a header can carry (nil: none)
+// wsKinds: the kinds of connection with the WebSocket framing; allClearKinds: every clear-text kind
+var wsKinds = []int{4, 5, 6, 7, 8}
+var allClearKinds = []int{0, 1, 2, 4, 5, 6, 7, 8, 0, 1, 2}
+
 func headerTos() []*addr {
 	out := []*addr{nil}
 	for loc := 0; loc < 3; loc++ {
@@ -920,7 +991,7 @@ func (c *ctx) exhaustive(tees []int) {
 							continue
 						}
 						sc := scenario{others: []other{f1}, clear: segs(one, h, f, a), prot: p,
-							results: []negRes{{mask: 2}, {mask: 0}}, domain: n % 4, remote: (n / 4) % 4, explicit: n%3 == 0, ck: (n / 2) % 3}
+							results: []negRes{{mask: 2}, {mask: 0}}, domain: n % 4, remote: (n / 4) % 4, explicit: n%3 == 0, ck: allClearKinds[(n/2)%len(allClearKinds)]}
 						sc.clear = relDomains(sc.clear, sc.domain)
 						if n%2 == 1 {
 							sc = useFeature2(sc, f2)
@@ -1009,14 +1080,17 @@ func useFeature2(sc scenario, f2 other) scenario {
 
 func (c *ctx) random(n int, tees []int) {
 	rnd := c.r.Rnd
-	kinds := []byte{'P', 'F', 'E', 'G', 'O', 'W', 'M'}
+	kinds := []byte{'P', 'F', 'E', 'G', 'O', 'W', 'M', 'D'}
 	for i := 0; i < n; i++ {
 		sc := scenario{domain: rnd.Intn(4), explicit: rnd.Chance(1, 3)}
 		sc.remote = sc.domain
 		if rnd.Bool() {
 			sc.remote = rnd.Intn(4)
 		}
-		sc.ck = rnd.Intn(3)
+		sc.ck = allClearKinds[rnd.Intn(len(allClearKinds))]
+		if sc.wsConn() && rnd.Bool() {
+			sc.remote = sc.domain // (what websocket.NewSession fixes)
+		}
 		tlsConn := rnd.Chance(1, 8)
 		if rnd.Chance(1, 6) {
 			sc.state0 = []uint8{2, 64, 66}[rnd.Intn(3)] // Authn, S2S
@@ -1217,7 +1291,7 @@ func (c *ctx) deep(n int, tees []int) {
 		if rnd.Chance(1, 3) {
 			sc.clear = [][]unit{{hdr(true), list()}, {u('P')}} // forced attempt
 		}
-		sc.ck = rnd.Intn(3)
+		sc.ck = allClearKinds[rnd.Intn(len(allClearKinds))]
 		if rnd.Chance(1, 6) {
 			sc.ck = 3
 			sc.clear = nil
